@@ -1,4 +1,6 @@
 mod c13;
+mod fsprops;
+mod pipeline;
 mod model;
 mod report;
 mod rng;
@@ -12,14 +14,20 @@ fn arg(args: &[String], name: &str) -> Option<String> {
 fn main() {
     let args: Vec<String> = std::env::args().collect();
     let prop = args.get(1).cloned().unwrap_or_default();
+    if prop == "child-gen" {
+        std::process::exit(pipeline::child_gen(&args[2..]));
+    }
     let tier = arg(&args, "--tier").unwrap_or_else(|| "quick".into());
     let seed: u64 = arg(&args, "--seed").and_then(|s| s.parse().ok()).unwrap_or(1);
     let out = arg(&args, "--out").unwrap_or_else(|| "/dev/stdout".into());
+    let own_scratch = std::env::var("LNV_SCRATCH").is_err();
     match prop.as_str() {
         "C13" => c13::run(&tier, seed, &out),
+        "C10" | "C11" | "C12" => fsprops::run(&prop, &tier, seed, &out),
         _ => {
             eprintln!("usage: lnv <property> --tier quick|thorough --seed N --out report.json");
             std::process::exit(2);
         }
     }
+    if own_scratch { let _ = std::fs::remove_dir_all(pipeline::scratch_root()); }
 }
